@@ -147,7 +147,7 @@ struct Ctx {
 VERIF_TARGET(c29_packages, nullptr, 128, 1500,
              "a regtest node (MempoolSim; default pool, or a 200 kB pool (cluster size limit 5 kvB) pre-filled with ~4.5 kB high-feerate transactions so that accepted package members get evicted again) with 0-8 "
              "generated pool transactions receives 2-6 packages: single tx, child-with-1..6-parents (also 23-26 parents spending a 27-output in-pool fan-out), parents depending on "
-             "parents, grandparent chains, two children, unrelated transactions; parents with zero/below-minimum/exact-minimum fee and a sponsoring child, parents spending "
+             "parents, grandparent chains, two children, unrelated transactions, [P1 spending a pool tx M, P2 replacing M (and thereby evicting the just-accepted P1), child of both]; parents with zero/below-minimum/exact-minimum fee and a sponsoring child, parents spending "
              "unconfirmed pool outputs, parents already in the pool (same or different witness); mutations: swapped order, duplicated transaction / witness twin, conflicting "
              "extra parent, total weight around 404000, a parent that is invalid. Rarely test-accept. non-trivial = a well-formed package of >= 3 transactions was evaluated with at "
              "least one member entering the pool and the case also contained a malformed package; distinct = shapes, mutations, model verdicts, result kinds")
@@ -204,7 +204,8 @@ VERIF_TARGET(c29_packages, nullptr, 128, 1500,
     bool saw_malformed = false, saw_good_eval = false;
     const unsigned npk = s.range<unsigned>(2, 6);
     for (unsigned pk = 0; pk < npk && !s.exhausted(); ++pk) {
-        const unsigned shape = s.range<unsigned>(0, 11);
+        const unsigned shape = s.range<unsigned>(0, 13);
+        std::optional<Txid> evict_p1, evict_p2; // shape "later parent replaces ancestor": the parent expected to be evicted / the replacing parent
         st.mix(uint64_t(100 + shape));
         Package pkg;
         std::string shape_name;
@@ -291,6 +292,32 @@ VERIF_TARGET(c29_packages, nullptr, 128, 1500,
             const unsigned n = s.range<unsigned>(2, 3);
             for (unsigned i = 0; i < n; ++i) { auto coin = c.TakeCoin(true); if (!coin) break; pkg.push_back(c.BuildWithFeeMode(parent_plan(*coin, 1), s.range<unsigned>(0, 5))); }
             if (pkg.size() < 2) continue;
+        } else if (shape >= 12) {
+            // pool holds M (optionally with a descendant D); package = [P1 spends M:0, P2 double-spends M's confirmed input, child spends P1 and P2]:
+            // P1 is accepted on its own, then P2 (if it pays enough) replaces M and with it the just-accepted P1 -- without any trim/expiry
+            shape_name = "later-parent-replaces-ancestor";
+            auto coin = c.TakeCoin(false);
+            if (!coin) continue;
+            CTransactionRef m = c.BuildWithFeeMode(parent_plan(*coin, 2), 0);
+            auto rm = ms.Submit(m);
+            ms.Sync();
+            if (rm.m_result_type != MempoolAcceptResult::ResultType::VALID || m->vout.size() < 2) { Note(st, "pre-submit M -> ", TxStateStr(rm)); continue; }
+            if (s.chance(70)) { // a descendant of M that is not part of the package
+                auto rd = ms.Submit(c.BuildWithFeeMode(parent_plan(OutputOf(m, 1), 1), 0));
+                ms.Sync();
+                Note(st, "pre-submit descendant of M -> ", TxStateStr(rd));
+            }
+            CTransactionRef p1 = c.BuildWithFeeMode(parent_plan(OutputOf(m, 0), s.range<unsigned>(1, 2)), s.pick<unsigned>({0, 0, 4, 5}));
+            TxPlan rp;
+            rp.inputs = {*coin};
+            rp.version = m->version;
+            rp.change_scripts = {ms.OutScript(s)};
+            const bool pays = !s.chance(64);
+            CTransactionRef p2 = c.BuildWithFeeMode(rp, pays ? 4 : s.pick<unsigned>({5, 0, 3})); // 60 sat/vB replaces M (5 sat/vB) and its few descendants; else the replacement fails
+            if (s.chance(64)) pkg = {p2, p1}; else pkg = {p1, p2};
+            pkg.push_back(make_child({OutputOf(p1, 0), OutputOf(p2, 0)}, 4));
+            evict_p1 = p1->GetHash(); evict_p2 = p2->GetHash();
+            st.cls(pays ? "replacing-parent:pays" : "replacing-parent:underpays");
         } else {
             // parents, one of them first sent to the pool on its own (same witness or a twin in the package)
             shape_name = "parent-already-in-pool";
@@ -437,6 +464,11 @@ VERIF_TARGET(c29_packages, nullptr, 128, 1500,
         }
         st.cls(pkg.size() > 1 ? "well-formed:multi" : "well-formed:single");
         if (test_accept) continue;
+        if (evict_p1 && before.entries.count(*evict_p1) == 0 && !after.entries.count(*evict_p1) && after.entries.count(*evict_p2)) {
+            size_t i1 = 0, i2 = 0;
+            for (size_t i = 0; i < pkg.size(); ++i) { if (pkg[i]->GetHash() == *evict_p1) i1 = i; if (pkg[i]->GetHash() == *evict_p2) i2 = i; }
+            if (i1 < i2) st.cls("parent-evicted-by-later-parent-rbf"); else st.cls("parent-orphaned-by-earlier-parent-rbf");
+        }
         // ---- results vs membership (by wtxid)
         std::set<Txid> pkg_ids;
         for (const auto& t : pkg) pkg_ids.insert(t->GetHash());
